@@ -708,6 +708,13 @@ static void run_type(const TypeOps& t) {
 
 #include "codec_controls.inc"
 
+static int sub_i_early(const Args& a) {
+  int i = 0, n = 1;
+  for (size_t k = 0; k + 1 < a.rest.size(); k++)
+    if (a.rest[k] == "--sub") sscanf(a.rest[k + 1].c_str(), "%d/%d", &i, &n);
+  return i;
+}
+
 int main(int argc, char** argv) {
   A = Args::parse(argc, argv);
   R.only = A.only;
@@ -721,12 +728,14 @@ int main(int argc, char** argv) {
   }
   g_progress = static_cast<char*>(mmap(nullptr, 8192, PROT_READ | PROT_WRITE, MAP_SHARED | MAP_ANONYMOUS, -1, 0));
   // negative controls first: the oracle of this property must flag a planted harness-side defect
-  if (A.only.empty() && SHARD == 0) {
+  if (A.only.empty() && SHARD == 0 && sub_i_early(A) == 0) {
     std::string why;
     if (!run_controls(A.prop, &why)) {
       printf("{\"t\":\"broken\",\"msg\":%s}\n", jstr("negative control not flagged: " + why).c_str());
       return 2;
     }
+    printf("{\"t\":\"stat\",\"counters\":{\"negative_controls_flagged\":%d},\"distinct\":0,\"violations\":0,\"sigcounts\":{},\"outcomes\":[],\"notes\":[]}\n",
+           (int)R.counters["negative_controls_flagged"]);
   }
   std::string only_type;
   if (!A.only.empty()) {
@@ -735,7 +744,13 @@ int main(int argc, char** argv) {
     only_type = A.only.substr(a + 1, b - a - 1);
   }
   int rc = 0;
+  int sub_i = 0, sub_n = 1;  // --sub i/n: this process handles every n-th type of the shard (load balancing)
+  for (size_t k = 0; k + 1 < A.rest.size(); k++)
+    if (A.rest[k] == "--sub") sscanf(A.rest[k + 1].c_str(), "%d/%d", &sub_i, &sub_n);
+  int type_index = -1;
   for (auto& t : types) {
+    type_index++;
+    if (only_type.empty() && (type_index % sub_n) != sub_i) continue;
     if (!only_type.empty() && t.name != only_type) continue;
     if (A.deadline > 0 && now() - g_t0 > A.deadline) {
       printf("{\"t\":\"stat\",\"counters\":{\"incomplete\":1,\"types_skipped_deadline\":1},\"distinct\":0,\"violations\":0,\"sigcounts\":{},\"outcomes\":[],\"notes\":[\"deadline reached before type %s\"]}\n", jesc(t.name).c_str());
